@@ -104,6 +104,208 @@ def check_least_squares(rep, unit, cfg, loc, s_nf, q_nf, x_nf):
             facts={"config": cfg, "scale": show(s_nf, 400)})
 
 
+REDUCTIONS = ("reduce_mean", "reduce_sum", "reduce_max", "reduce_min")
+SHAPE_OPS = ("reshape", "repeat", "tile", "expand_dims")
+
+
+class GroupInconclusive(Exception):
+  pass
+
+
+def _apply_shape_op(t, arr):
+  import numpy as np
+  f, attrs = t[1], t[2]
+  if f == "reshape":
+    return arr.reshape(tuple(attrs[0]))
+  if f == "repeat":
+    return np.repeat(arr, attrs[0], axis=attrs[1])
+  if f == "tile":
+    return np.tile(arr, tuple(attrs[0]))
+  if f == "expand_dims":
+    return np.expand_dims(arr, attrs[0])
+  raise GroupInconclusive("shape operation %s" % f)
+
+
+def group_labels(term, x_shape):
+  """Which elements share a scale.  Index arrays are pushed through the
+  shape operations of the raw IR term (reshape / repeat / tile /
+  expand_dims; element-wise operators keep positions): below the outermost
+  reductions the positions of x tell which elements each reduced cell
+  averages, above them the cell numbers tell which cell every position of
+  the final scale reads.  Returns (cell_of_position, source_cell_of_position)
+  as flat lists over the positions of x, or raises GroupInconclusive."""
+  import numpy as np
+  n = int(np.prod(x_shape))
+  memo_down = {}
+
+  def down(t):
+    """array of x positions at every position of the value of t"""
+    if id(t) in memo_down:
+      return memo_down[id(t)]
+    r = _down(t)
+    memo_down[id(t)] = r
+    return r
+
+  def _down(t):
+    k = t[0]
+    if k == "x":
+      return np.arange(n).reshape(x_shape)
+    if k in ("c", "sym"):
+      return None
+    if k == "app" and t[1] in SHAPE_OPS:
+      arr = down(t[3][0])
+      return None if arr is None else _apply_shape_op(t, arr)
+    if k == "app" and (t[1] in REDUCTIONS or t[1] == "repeat"):
+      return None
+    parts = [down(a) for a in (t[3] if k == "app" else t[1:])
+             if isinstance(a, tuple)]
+    parts = [p for p in parts if p is not None]
+    if not parts:
+      return None
+    shp = parts[0].shape
+    for p in parts[1:]:
+      if p.shape != shp or not (p == parts[0]).all():
+        # operands that carry different positions (e.g. an earlier scale
+        # estimate broadcast against x): keep the full-size one
+        if p.size > parts[0].size:
+          parts[0] = p
+    return parts[0]
+  cells = {}     # id(reduction term) -> (cell number array, membership)
+  memo_up = {}
+
+  def up(t):
+    """array of cell numbers at every position of the value of t"""
+    if id(t) in memo_up:
+      return memo_up[id(t)]
+    r = _up(t)
+    memo_up[id(t)] = r
+    return r
+
+  def _up(t):
+    k = t[0]
+    if k in ("c", "sym", "x"):
+      return None
+    if k == "app" and t[1] in REDUCTIONS:
+      src = down(t[3][0])
+      if src is None:
+        raise GroupInconclusive("reduction over a value without positions")
+      axes, keep = t[2]
+      if axes == ("all",):
+        axes = tuple(range(src.ndim))
+      if not keep:
+        raise GroupInconclusive("reduction without keepdims")
+      out_shape = tuple(1 if i in axes else d
+                        for i, d in enumerate(src.shape))
+      cell = np.arange(int(np.prod(out_shape))).reshape(out_shape)
+      member = np.broadcast_to(cell, src.shape)
+      owner = np.full(n, -1)
+      owner[src.reshape(-1)] = member.reshape(-1)
+      key = tuple(owner.tolist())
+      cells[id(t)] = key
+      return ("cells", key, cell)
+    if k == "app" and t[1] in SHAPE_OPS:
+      v = up(t[3][0])
+      if v is None:
+        return None
+      return ("cells", v[1], _apply_shape_op(t, v[2]))
+    parts = [up(a) for a in (t[3] if k == "app" else t[1:])
+             if isinstance(a, tuple)]
+    parts = [p for p in parts if p is not None]
+    if not parts:
+      return None
+    first = parts[0]
+    for p in parts[1:]:
+      if p[1] != first[1] or p[2].shape != first[2].shape or \
+          not (p[2] == first[2]).all():
+        raise GroupInconclusive("operands grouped differently")
+    return first
+  v = up(term)
+  if v is None:
+    raise GroupInconclusive("no reduction feeds the scale")
+  _, owner, final = v
+  try:
+    reads = np.broadcast_to(final, x_shape).reshape(-1).tolist()
+  except ValueError:
+    raise GroupInconclusive("scale of shape %s does not broadcast to %s" %
+                            (final.shape, x_shape))
+  return list(owner), reads
+
+
+def rule_groups(rep, repo, classes, rule="R6", tier="quick"):
+  """Grouped scales (scale_axis / elements_per_scale): the recorded scale
+  must be built from means over exactly one group each - the tensor is
+  unrolled so that axis `a` of length L becomes (L/e, e), the mean runs over
+  every axis except the group-count axis, and the per-group value is repeated
+  e times along `a` (element j of the axis belongs to group j // e).  Without
+  elements_per_scale the mean runs over every axis except scale_axis.
+  (Rank-1 tensors are left out: the library scales them per tensor in some
+  quantizers and per element in others, and documents neither.)"""
+  mod = repo.module(quant.QMOD)
+  shapes = [(4, 6), (2, 3, 8)] if tier == "quick" else \
+      [(4, 6), (2, 3, 8), (2, 4, 6, 8)]
+  n = 0
+  for cls, base in classes:
+    unit = "%s::%s.__call__" % (mod.relpath, cls)
+    rep.unit(unit)
+    for shp in shapes:
+      rank = len(shp)
+      for a in range(rank):
+        L = shp[a]
+        for e in [None] + [d for d in range(1, L + 1) if L % d == 0]:
+          if rank == 1 and e is not None:
+            continue
+          kw = dict(base, scale_axis=a)
+          if e is not None:
+            kw["elements_per_scale"] = e
+          cfg = "%s(%s)@shape%s" % (cls, oracle.show_kwargs(kw), shp)
+          try:
+            b = quant.build(repo, cls, kw, x_shape=shp)
+          except ConfigRejected:
+            continue
+          sattr = "scale" if cls != "quantized_linear" else \
+              "quantization_scale"
+          sc = b.obj.attrs.get(sattr)
+          if not isinstance(sc, Tensor):
+            rep.fail(rule, unit, "no-scale-recorded", "%s: no scale" % cfg,
+                     instance=cfg)
+            continue
+          n += 1
+          loc = b.pe.loc_of(sc.term)
+          import numpy as np
+          try:
+            owner, reads = group_labels(sc.term, shp)
+          except GroupInconclusive as ex:
+            raise AnalysisError("unsupported-construct grouped scale of %s: "
+                                "%s" % (cfg, ex))
+          ee = 1 if e is None else e
+          # expected: positions with the same index j // e along axis a (and
+          # any index along the other axes) form one group
+          idx = np.indices(shp)[a] // ee if e is not None else \
+              np.indices(shp)[a]
+          want = idx.reshape(-1).tolist()
+          # the partition induced by `owner` must be the expected one
+          pairs = {}
+          ok_part = True
+          for o, w in zip(owner, want):
+            if pairs.setdefault(o, w) != w:
+              ok_part = False
+          ok_part = ok_part and len(set(pairs.values())) == len(pairs) and \
+              -1 not in pairs
+          rep.check(ok_part, rule, unit, "group-membership",
+                    "%s: the means that feed the scale do not average "
+                    "exactly the elements of one group (groups of %d along "
+                    "axis %d, all other axes reduced); cell of each element: "
+                    "%s" % (cfg, ee, a, owner[:48]), loc=loc, instance=cfg)
+          rep.check(reads == owner, rule, unit, "group-scale-misplaced",
+                    "%s: position p of the tensor is scaled with the value "
+                    "computed for another group: cells read %s, cells the "
+                    "positions belong to %s" % (cfg, reads[:48], owner[:48]),
+                    loc=loc, instance=cfg)
+  if n < 20:
+    raise AnalysisError("instance-count only %d grouped-scale "
+                        "configurations" % n)
+
+
 def run(rep, repo, tier):
   mod = repo.module(quant.QMOD)
   rep.trusted.append("semantics table of TF/Keras primitives")
@@ -216,6 +418,10 @@ def run(rep, repo, tier):
                                " with exponent in [%s, %s]" % (mn, mx)),
                 loc=loc, instance=cfg, facts=facts)
   rep.extra["configuration_points"] = n
+  rule_groups(rep, repo, [("binary", dict(alpha="auto")),
+                          ("binary", dict(alpha="auto_po2", use_01=True)),
+                          ("ternary", dict(alpha="auto"))], "R6", tier)
+  rep.require_instances("R6", 40)
   rep.require_instances("R1", 25)
   rep.require_instances("R2", 25)
   rep.require_instances("R3", 3)
